@@ -103,6 +103,10 @@ func c15Gen(rnd *rand.Rand, i int, locs []c15Loc) (c15Case, c15Loc) {
 			path += "old"
 		} else {
 			path += "other/" + fmt.Sprint(i)
+			if rnd.Intn(2) == 0 {
+				// escapes in a path that no rule of the location touches stay as the client sent them
+				path += []string{"/a%2Fb", "/sp%20ace", "/%41.txt", "/caf%C3%A9", "/semi;colon=1"}[rnd.Intn(5)]
+			}
 		}
 	case "/plain/", "/hdr/", "/ae/", "/h2c/":
 		path += seg() + fmt.Sprintf("/%d", i)
@@ -224,7 +228,11 @@ func c15CheckForward(r *hx.Run, c c15Case, l c15Loc, f *hx.Fetch, res *hx.Result
 	}
 	wantPath := cu.EscapedPath()
 	if l.rewriteFn != nil {
-		wantPath = l.rewriteFn(cu.Path)
+		if p := l.rewriteFn(cu.Path); p != cu.Path {
+			wantPath = p
+		} else if wantPath != cu.Path {
+			r.Add("escaped_paths_untouched_by_the_rewrite_rules", 1)
+		}
 	}
 	if fu.EscapedPath() != wantPath {
 		return fail("path_differs", fmt.Sprintf("upstream path %q, expected %q", fu.EscapedPath(), wantPath))
@@ -300,7 +308,7 @@ func sortedValues(v url.Values) []string {
 }
 
 func c15(r *hx.Run) {
-	r.Rule = "generated cases on nine locations (one reaching the origin over h2c, no change, the two documented rewrite forms, a literal swap, a two-rule rewrite chain, added request+response headers, added query parameters, upstream Accept-Encoding override): methods GET/HEAD/POST/PUT/DELETE/PATCH, bodies 0..1 MiB (also on GET), upstream statuses 200/201/404/500/503 on the pass-through methods, multi-valued/lower-case/credential headers, queries with repeated keys, escapes and value-less parameters, escaped paths; conditional (matching/non-matching ETag and Last-Modified) and Range (first bytes, suffix, multi, If-Range) headers on cold, hit and hit-for-pass keys against an origin built on http.ServeContent; client A's request is followed by a plain client B; beside all this an upstream that takes 11 s to answer and a client that takes 11 s to send its body (no timeout configured). Compared: what the origin logged vs the reference transformation, the client's response vs origin response + configured headers, B never receives 304/206/partial. Non-trivial/distinct = (location, method, conditional kind, key state, cacheable)."
+	r.Rule = "generated cases on nine locations (one reaching the origin over h2c, no change, the two documented rewrite forms, a literal swap, a two-rule rewrite chain, added request+response headers, added query parameters, upstream Accept-Encoding override): methods GET/HEAD/POST/PUT/DELETE/PATCH, bodies 0..1 MiB (also on GET), upstream statuses 200/201/404/500/503 on the pass-through methods, multi-valued/lower-case/credential headers, queries with repeated keys, escapes and value-less parameters, escaped paths (also on a location whose rewrite rule does not apply to them); conditional (matching/non-matching ETag and Last-Modified) and Range (first bytes, suffix, multi, If-Range) headers on cold, hit and hit-for-pass keys against an origin built on http.ServeContent; client A's request is followed by a plain client B; beside all this an upstream that takes 11 s to answer and a client that takes 11 s to send its body (no timeout configured). Compared: what the origin logged vs the reference transformation, the client's response vs origin response + configured headers (ETag and Last-Modified byte for byte, whatever the encoding), B never receives 304/206/partial. Non-trivial/distinct = (location, method, conditional kind, key state, cacheable)."
 	r.Assume = []string{"malformed queries, If-Match/412, X-Forwarded-For, User-Agent and the upstream Accept-Encoding when the client sent none (Go's transport adds gzip itself) are not judged", "conditional headers on a cold uncacheable fetch are not judged (pike cannot know cacheability beforehand)", "304 for a conditional HEAD is not demanded (the fresh middleware skips body-less responses; 200 is a correct answer)"}
 	rnd := rand.New(rand.NewSource(r.Seed))
 	locs := c15Locations()
@@ -528,6 +536,14 @@ func c15(r *hx.Run) {
 		if resA.Status == 200 || resA.Status == 206 || (c.Method != "GET" && c.Method != "HEAD") {
 			if resA.Status >= 400 {
 				r.Add("upstream_error_statuses_passed_through", 1)
+			}
+			if c.Method == "GET" || c.Method == "HEAD" {
+				// the validators are the origin's own, byte for byte - whatever encoding the client is given
+				if et, lm := resA.Header.Get("Etag"), resA.Header.Get("Last-Modified"); et != c15ETag(c.URI) || lm != c15ModTime.Format(http.TimeFormat) {
+					r.Violate("response_header_changed", map[string]string{"header": "validators"}, fmt.Sprintf("ETag %q Last-Modified %q, the origin sent %q and %q (Content-Encoding %q)", et, lm, c15ETag(c.URI), c15ModTime.Format(http.TimeFormat), resA.Header.Get("Content-Encoding")), resA.Brief(), cs)
+					continue
+				}
+				r.Add("validators_compared", 1)
 			}
 			wantMulti := []string{"o1", "o2"}
 			if fmt.Sprint(resA.Header["X-Origin-Multi"]) != fmt.Sprint(wantMulti) {
